@@ -98,7 +98,7 @@ func tableKey(nlri bgp.NLRI) addrPrefixKey {
 	default:
 		h = fnv1a.AddString64(h, nlri.String())
 	}
-	return addrPrefixKey(h)
+	return verifTableKey(addrPrefixKey(h))
 }
 
 // destinationShard is a sharded bucket that owns both the map subset and the lock
